@@ -117,9 +117,9 @@ func LoadNode(on *OctreeNode, metadata *Metadata, buf []byte) modeling.Mesh {
 				pointOffset := (i * bytesPerPoint) + attributeOffset
 				positionData[i] = vector3.
 					New(
-						int(endian.Uint32(buf[pointOffset:])),
-						int(endian.Uint32(buf[pointOffset+4:])),
-						int(endian.Uint32(buf[pointOffset+8:])),
+						int(int32(endian.Uint32(buf[pointOffset:]))),
+						int(int32(endian.Uint32(buf[pointOffset+4:]))),
+						int(int32(endian.Uint32(buf[pointOffset+8:]))),
 					).
 					ToFloat64().
 					MultByVector(scale).
